@@ -174,6 +174,20 @@ chk("C09", "proof",
     "Coq proof of the scheduler (unconditional bounds; conditional fixed point); plug-in driven correspondence; pairwise enumeration",
     "DESIGN.md section 4 C09")
 
+chk("C13", "proof",
+    "Proved (Coq, closed under the global context) for ANY rule - values, events, outputs and step function abstract - whose callbacks write "
+    "only fields that starting_new_file re-initialises: the output for a file is the same after any two histories of files and equals the "
+    "output of processing the file alone (Model/History.v). The hypothesis is discharged rule by rule from Gen/RuleFields.v, regenerated on every "
+    "run by a syntactic analysis of every rule class: the written-but-not-reset fields must be exactly the eight reviewed ones; and the per-"
+    "document re-initialisations outside the rules (suppression tables of the plug-in manager, pragma lines and token list of the tokenizer, "
+    "link-definition and inline-handler tables) must be present and unconditional. What the analysis cannot see (the eight fields, helper "
+    "objects, parser internals) is decided by histories on the implementation: every ordered pair and sampled triples of a 29 (quick) / 74 "
+    "(thorough) document pool through one scan and one fix invocation, and a reused API object, each file compared with processing it alone.",
+    "Trusted: Coq kernel, translator rule_fields.py (syntactic; aliasing unseen), in-process CLI/API drivers. The theorem is about the abstract "
+    "rule; that each real rule meets its frame condition is taken from the syntactic analysis plus the histories, not proved.",
+    "Coq proof over abstract rule state; generated reset obligations; history enumeration",
+    "DESIGN.md section 4 C13")
+
 NOT_YET = {}
 
 
